@@ -61,6 +61,26 @@ class TG:
         self.made.append(nid)
         return {'t': t, 'n': nid, 'v': v}
 
+    def hetero_root(self):
+        """a target whose 'rows' are siblings of different kinds sharing the key 'k' / index 1: wildcard
+        operations must treat every match by its own type"""
+        rng = self.rng
+        self.made, self.nid = [], 0
+        kinds = ['dict', 'obj', 'simdict', 'list', 'odict', 'simobj', 'simlist', 'mydict']
+        rows = []
+        for kd in rng.sample(kinds, rng.randint(2, 4)):
+            if kd in ('list', 'simlist'):
+                rows.append({'t': kd, 'n': self.n(), 'v': [rng.choice(LEAVES) for _ in range(rng.randint(0, 3))]})
+            else:
+                keys = rng.sample(['k', '1', 'a'], rng.randint(1, 3))
+                rows.append({'t': kd, 'n': self.n(), 'v': [[k, rng.choice(LEAVES)] for k in keys]})
+        holder = rng.choice(['list', 'dict', 'simlist'])
+        if holder == 'dict':
+            rowsv = {'t': 'dict', 'n': self.n(), 'v': [[f'r{i}', r] for i, r in enumerate(rows)]}
+        else:
+            rowsv = {'t': holder, 'n': self.n(), 'v': rows}
+        return {'t': 'dict', 'n': self.n(), 'v': [['rows', rowsv], ['other', 1]]}
+
     def root(self):
         while True:
             self.made = []
@@ -88,6 +108,16 @@ def index_nodes(recipe, table=None):
             else:
                 index_nodes(x, table)
     return table
+
+
+def hetero_segs(rng):
+    style = rng.choice(['str', 'Path', 'mixed'])
+    last = rng.choice(['k', '1', 'a'])
+    if style == 'str':
+        return [['P', 'rows'], ['x', None], ['P', last]], 'str'
+    if style == 'Path':
+        return [['P', 'rows'], ['x', None], ['P', last if rng.random() < 0.6 else 1]], 'Path'
+    return [['[', 'rows'], ['x', None], ['P', last]], 'mixed'
 
 
 def gen_segs(rng, root, allow_wild=False, p_absent=0.3, for_delete=False):
@@ -131,7 +161,8 @@ def gen_segs(rng, root, allow_wild=False, p_absent=0.3, for_delete=False):
                     k = k - ln      # negative index
                 nxt = cur['v'][k]
             else:
-                k = rng.choice([ln, ln + 3, 'bad'] if style != 'T' else [ln, ln + 3])
+                k = rng.choice([ln, ln + 3, 'bad', -ln - 1, -ln - 2, -2 * ln - 1] if style != 'T'
+                               else [ln, ln + 3, -ln - 1, -2 * ln])
                 nxt = None
             op = _op_for(rng, style, 'seq', k)
         elif is_obj and not absent:
